@@ -7,7 +7,7 @@ from ..state import K, Dom
 
 INFO = {
     "bounds": {
-        "quick": "trees T01,T06,T07; per tree: every user-state descriptor (bool 3 states, int symbolic 0..10^5 + malformed candidates, strings from candidates, choice picks) x one operation {unset,set,reset,reset-menu} on a fixed target per job with symbolic value; read order forward and reverse",
+        "quick": "29+ edge trees (one per dependency-edge kind; every option is the operation target once) and T06,T07 (seeded targets); per tree: user-state descriptors (sampled partition of ~40 states per job) (bool 3 states, int symbolic 0..10^5 + malformed candidates, strings from candidates, choice picks) x one operation {unset,set,reset,reset-menu} on a fixed target per job with symbolic value; read order forward and reverse",
         "thorough": "all templates T01..T12,T15 + random trees; same, plus 2-step histories",
     },
     "outside": ["trees outside the corpus", "histories longer than the inductive step's single operation are covered only through the all-caches-filled argument (DESIGN C03)", "hex/float/string values outside the candidate lists"],
@@ -104,7 +104,7 @@ def jobs(tier, seed, excluded=()):
     etrees = edges.ids()
     if tier == "quick":
         big = ["T06", "T07"]
-        budget, nparts, tmo = 70, 1, 60
+        budget, nparts, tmo = 40, 1, 60
     else:
         big = ["T01", "T02", "T03", "T04", "T05", "T06", "T07", "T08", "T09", "T10", "T11", "T12", "T15"] + ["R%d" % (1000 * seed + j) for j in range(8)]
         budget, nparts, tmo = 900, 3, 400
@@ -116,14 +116,9 @@ def jobs(tier, seed, excluded=()):
             pairs = [(a, b) for a in targets for b in targets if a != b]
             rng.shuffle(pairs)
             hist += pairs[: (1 if tier == "quick" else 6)]
-        if tier == "quick":
-            if tid in big:
-                rng.shuffle(hist)
-                hist = hist[:5]
-            else:
-                # the source X of the edge plus one seeded other target
-                others = [h for h in hist if slots[h[0]].name != "X"]
-                hist = [h for h in hist if slots[h[0]].name == "X"] + ([rng.choice(others)] if others else [])
+        if tier == "quick" and tid in big:
+            rng.shuffle(hist)
+            hist = hist[:5]
         for hi, h in enumerate(hist):
             parts, complete = ST.partitions(slots, dom, budget // (1 if len(h) == 1 else 5), nparts, rng, must_free=[slots[t].name for t in h])
             for pi, fixed in enumerate(parts):
